@@ -36,8 +36,8 @@ TRIGGERS = ["fail_asyncio", "fail_trio", "fail_thread", "return_asyncio", "retur
 
 def plan(tier, seed):
     if tier == "thorough":
-        return [dict(seed=seed, shard=i, n=110) for i in range(16)]
-    return [dict(seed=seed, shard=i, n=10) for i in range(16)]
+        return [dict(seed=seed, shard=i, n=110) for i in range(16)] + [dict(seed=seed, shard="exit", kind="exit", n=3)]
+    return [dict(seed=seed, shard=i, n=10) for i in range(16)] + [dict(seed=seed, shard="exit", kind="exit", n=1)]
 
 
 def coroutine_payload(rnd, pid, flavour):
@@ -294,8 +294,56 @@ def execute(case, result):
     return problems[:4], run
 
 
+def run_exit_shard(spec, result):
+    """Blocked thread payloads never prevent termination - of the process either (vlib/rt/exit_probe.py): the runtime in
+    the main thread, blocked thread payloads adopted from every context, the run call ended; then the main thread returns
+    and the interpreter must exit. Decided on an event (the process ended), watched by a generous wall-clock limit."""
+    import json
+    import os
+    import subprocess
+
+    only = spec.get("only_case")
+    idx = -1
+    for rep in range(spec["n"]):
+        for ending in ("shutdown", "failure", "interrupt"):
+            for mode in ("service", "meta"):
+                idx += 1
+                if only is not None and idx != only:
+                    continue
+                case = {"kind": "exit", "ending": ending, "mode": mode, "repetition": rep}
+                proc = subprocess.Popen([core.PYTHON, "-m", "vlib.rt.exit_probe", ending, mode], stdout=subprocess.PIPE, stderr=subprocess.DEVNULL, text=True, env=dict(os.environ))
+                line = proc.stdout.readline()
+                try:
+                    out = json.loads(line)
+                except ValueError:
+                    proc.kill()
+                    result.inconc("exit probe %s printed nothing" % (case,))
+                    continue
+                if out.get("inconclusive") or len(out.get("blocked_payloads_started", [])) < 5:
+                    proc.kill()
+                    result.inconc("exit probe %s: %s" % (case, out))
+                    continue
+                try:
+                    proc.wait(timeout=30)
+                    ended = True
+                except subprocess.TimeoutExpired:
+                    ended = False
+                    proc.kill()
+                    proc.wait()
+                result.case(dict(case, observed=out, process_ended=ended), nontrivial=True, key=json.dumps(case))
+                result.count("process_exits_with_blocked_thread_payloads_checked")
+                if not ended:
+                    result.violation("with the runtime in the main thread and blocked thread payloads adopted from every context, the run call ended (%s, trigger %s) "
+                                     "but the process did not end within 30 s after the main thread had returned: blocked thread payloads %s keep the interpreter alive"
+                                     % (out.get("run_call"), ending, out.get("not_daemonic") or out.get("blocked_payloads_started")),
+                                     dict(case, observed=out), None, spec={k: v for k, v in spec.items() if k != "only_case"}, case_id=idx)
+
+
 def run_shard(spec):
     result = core.Result()
+    if spec.get("kind") == "exit":
+        run_exit_shard(spec, result)
+        return result
     only = spec.get("only_case")
     for i in range(spec["n"]):
         if only is not None and i != only:
@@ -313,7 +361,7 @@ def run_shard(spec):
 def finish(total, tier):
     need = ["running_coroutine_payloads_judged", "payloads_cancelled_and_cleaned_asyncio", "payloads_cancelled_and_cleaned_trio",
             "shielded_cleanups_finished_first", "terminations_with_blocked_threads", "payloads_adopted_during_termination_started", "scenarios_driving_metarunner_directly", "dispatcher_workers_judged", "private_waiters_cancelled_properly",
-            "async_cleanups_finished_first", "shielded_cleanups_that_adopt_half_way_finished_first", "stubborn_payloads_cancelled_until_done_asyncio", "stubborn_payloads_cancelled_until_done_trio"]
+            "async_cleanups_finished_first", "shielded_cleanups_that_adopt_half_way_finished_first", "stubborn_payloads_cancelled_until_done_asyncio", "stubborn_payloads_cancelled_until_done_trio", "process_exits_with_blocked_thread_payloads_checked"]
     need += ["trigger_" + t for t in TRIGGERS if not t.startswith("systemexit")]
     for name in need:
         if not total.counters.get(name) and not total.violations:
